@@ -176,6 +176,15 @@ void probe_apply(long n, std::vector<unsigned char>& out, F&& f)
     {
         return;
     }
+    catch (const std::exception& e)
+    {
+        // the real wrapper refuses to work (e.g. SparseRegularInverse left in a failed state): that IS the state of the
+        // operator, recorded in the probe so that it compares unequal to the probe of a healthy operator
+        static const char tag[] = "<probe threw>";
+        out.insert(out.end(), tag, tag + sizeof(tag));
+        for (const char* c = e.what(); *c; c++) out.push_back((unsigned char) *c);
+        return;
+    }
     std::vector<unsigned char> b;
     raw_bytes(y, b);
     out.insert(out.end(), b.begin(), b.end());
